@@ -5,6 +5,7 @@ CONSTANTS
   Slots = 0
   MaxNodes = 3
   MaxCache = 1
+  Cnfs <- NoCnfs
   Ops <- IteCond
   GetIgnoresCompl = FALSE
   GetIgnoresKey = FALSE
